@@ -264,4 +264,13 @@ PROPERTIES = {
             part("C09.async", race=True, shards={"quick": 8, "thorough": 16}, floor=30, timeout={"quick": 900, "thorough": 7200}),
         ],
     },
+    "C10": {
+        "level": "fault_enumeration",
+        "level_text": "structure-aware enumeration of wire messages (cross product of field states) through the real gorums service handlers, conversion code, event loop and protocol handlers "
+                      "of a fully wired replica in several states; oracles: no panic (recovered, attributed to the innermost repository frame) and unchanged protocol state for input in which nothing verifies",
+        "level_note": "handlers are called in-process with a peer context (no TLS identity path); verification is synchronous so a panic is caught on the calling goroutine",
+        "technique": "fault enumeration over structured wire messages with panic and state-invariance monitors",
+        "rule": "C10: hostile wire input",
+        "parts": [part("C10.wire", target=("test", "server"), shards={"quick": 16, "thorough": 16}, floor=2000)],
+    },
 }
